@@ -142,13 +142,12 @@ Lemma commit_unfold c s id parent just comm :
     match quality_of c s parent (num_of id) just with
     | None => []
     | Some q =>
-      [Put (KQuality id) (VNum q)] ::
-      (if comm && (1 <? q) && (num_of (finalized c s) <? checkpoint (c_L c) (num_of id)) then
-         match find_checkpoint c (apply_batch s [Put (KQuality id) (VNum q)]) (q - 1) (finalized c s) id with
-         | Some f => [[Put KFinalized (VId f)]]
-         | None => []
-         end
-       else [])
+      if comm && (1 <? q) && (num_of (finalized c s) <? checkpoint (c_L c) (num_of id)) then
+        match find_checkpoint c (apply_batch s [Put (KQuality id) (VNum q)]) (q - 1) (finalized c s) id with
+        | Some f => [[Put (KQuality id) (VNum q); Put KFinalized (VId f)]]
+        | None => [[Put (KQuality id) (VNum q)]]
+        end
+      else [[Put (KQuality id) (VNum q)]]
     end
   else [].
 Proof.
@@ -236,10 +235,12 @@ Proof.
     set (wq := [Put (KQuality (b_id b)) (VNum q)]) in *. set (s4 := apply_batch s3 wq) in *.
     assert (F4 : finalized c s4 = finalized c s) by (unfold s4, wq; rewrite finalized_put_quality; auto).
     destruct (b_comm b && (1 <? q) && (num_of (finalized c s3) <? checkpoint (c_L c) (num_of (b_id b)))).
-    2:{ cbn [apply_writes fold_left]. fold s4. constructor; auto. rewrite F4. auto. }
-    destruct (find_checkpoint c s4 (q - 1) (finalized c s3) (b_id b)) as [f|] eqn:Ef.
-    2:{ cbn [apply_writes fold_left]. fold s4. constructor; auto. rewrite F4. auto. }
-    cbn [apply_writes fold_left]. fold s4. constructor.
+    2:{ cbn [apply_writes fold_left]. fold wq. fold s4. constructor; auto. rewrite F4. auto. }
+    fold wq. fold s4. destruct (find_checkpoint c s4 (q - 1) (finalized c s3) (b_id b)) as [f|] eqn:Ef.
+    2:{ cbn [apply_writes fold_left]. fold wq. fold s4. constructor; auto. rewrite F4. auto. }
+    cbn [apply_writes fold_left].
+    change (apply_batch s3 [Put (KQuality (b_id b)) (VNum q); Put KFinalized (VId f)]) with (apply_batch s4 [Put KFinalized (VId f)]).
+    constructor.
     + eapply Qrec_ext; [| |exact QR4]; intro i; [apply get_summary_put_other; discriminate|apply get_quality_put_fin].
     + rewrite finalized_put. eapply aligned_find; [|exact Ef]. rewrite F3. auto.
 Qed.
